@@ -318,9 +318,48 @@ def run_case(sh, s, d, case, script=None):
                 # our own verdict, recomputed from the .dat lines of the chain that is still selectable
                 gz = fpath.endswith('z')
                 older_full = any(x['kind'] == 'full' and x['held'] and x is not chain[0] for x in backups)
+                if dmg == 'missing' and b is not chain[0] and b is not chain[-1]:
+                    # an incremental in the middle of the chain is gone: recovery of the latest state must not skip it silently
+                    out2 = os.path.join(d, 'Recovered-damaged.fs')
+                    opt = R.parseargs(['-R', '-r', repo, '-o', out2] + (['-w'] if rnd.random() < 0.5 else []))
+                    opt.test_now = tick(now, 5)
+                    sh.count('recoveries_with_a_middle_incremental_missing')
+                    try:
+                        quiet(R.do_recover, opt)
+                        got2 = open(out2, 'rb').read()
+                    except (R.RepozoError, OSError, KeyError):
+                        got2 = None
+                    for x in os.listdir(d):
+                        if x.startswith('Recovered-damaged.fs'):
+                            os.remove(os.path.join(d, x))
+                    if got2 is not None and not any(got2 == x['S'] for x in backups):
+                        sh.violation('c18:recover-yields-bytes-of-no-backup:incremental-file-missing', dict(wit, file=b['file'], size=len(got2)), case)
+                        open(fpath, 'wb').write(orig)
+                        return None
+                if dmg == 'missing' and b is chain[0] and older_full and len(chain) > 1:
+                    # the newest full backup is gone, its incrementals and an older chain are still there: recovery must not
+                    # glue the orphaned incrementals onto the older full backup (a file that never existed); refusing is fine
+                    out2 = os.path.join(d, 'Recovered-damaged.fs')
+                    opt = R.parseargs(['-R', '-r', repo, '-o', out2])
+                    opt.test_now = tick(now, 5)
+                    sh.count('recoveries_with_the_newest_full_missing')
+                    try:
+                        quiet(R.do_recover, opt)
+                        got2 = open(out2, 'rb').read()
+                    except (R.RepozoError, OSError, KeyError):
+                        got2 = None
+                    for x in os.listdir(d):
+                        if x.startswith('Recovered-damaged.fs'):
+                            os.remove(os.path.join(d, x))
+                    if got2 is not None and not any(got2 == x['S'] for x in backups):
+                        sh.violation('c18:recover-yields-bytes-of-no-backup:newest-full-backup-file-missing', dict(wit, file=b['file'], size=len(got2)), case)
+                        open(fpath, 'wb').write(orig)
+                        return None
                 for quick in (False, True):
                     if dmg == 'missing' and b is chain[0] and older_full:
-                        expect_fail = None      # the repository now simply holds the older chain: no verdict
+                        # a backup file is missing: verification has to fail (it used to look at the older chain only) - unless
+                        # nothing else of the newest chain is left, then the repository simply is the older chain
+                        expect_fail = True if len(chain) > 1 else None
                     else:
                         expect_fail = own_verdict(repo, chain, quick)
                     opt = R.parseargs(['-V', '-r', repo] + (['-Q'] if quick else []))
